@@ -90,8 +90,8 @@ def c_req(s, pos, raw, seen):
 
 
 def c_piece(p):
-    return "(%s %s)" % ({"lit": "PLit", "ent": "PEnt", "dec": "PDec", "hex": "PHex", "cdata": "PCData"}[p[0]],
-                        cstr(p[1]))
+    return "(%s %s)" % ({"lit": "PLit", "ent": "PEnt", "dec": "PDec", "hex": "PHex", "cdata": "PCData",
+                         "com": "PComment", "pi": "PPI"}[p[0]], cstr(p[1]))
 
 
 def c_elem(t):
@@ -404,7 +404,35 @@ def write_pieces(rng, s, attr=False, q='"', maxlit=0x10ffff):
     if not attr and rng.random() < 0.1:
         # an empty CDATA section contributes nothing (and only ever breaks a run of literal `]`)
         pieces.insert(rng.randrange(len(pieces) + 1), ("cdata", ""))
+    if not attr:
+        # comments and processing instructions anywhere between the pieces denote nothing
+        for _ in range(rng.choice([0, 0, 0, 1, 1, 2, 3])):
+            pieces.insert(rng.randrange(len(pieces) + 1),
+                          ("com", comment_body(rng, maxlit)) if rng.random() < 0.6 else ("pi", pi_body(rng, maxlit)))
     return pieces
+
+
+def noise(rng, maxlit, n):
+    out = []
+    for _ in range(n):
+        ch = rng.choice("<>&;'\"]-? \n\tabc") if rng.random() < 0.6 else random_char(rng)
+        out.append(ch if ord(ch) <= maxlit and ch != "\r" else "x")
+    return "".join(out)
+
+
+def comment_body(rng, maxlit=0x10ffff):
+    b = noise(rng, maxlit, rng.choice([0, 1, 3, 8, 20]))
+    while "--" in b:
+        b = b.replace("--", "- ")
+    if b.endswith("-"):
+        b += " "
+    return b
+
+
+def pi_body(rng, maxlit=0x10ffff):
+    target = rng.choice(["p", "php", "xml-stylesheet", "x", "Xm", "xmlx", "t.1"])
+    b = noise(rng, maxlit, rng.choice([0, 0, 2, 6, 15])).replace("?>", "? ")
+    return target + (" " + b if b or rng.random() < 0.3 else "")
 
 
 def render_pieces(pieces):
@@ -418,6 +446,10 @@ def render_pieces(pieces):
             out.append("&#%s;" % p)
         elif kind == "hex":
             out.append("&#x%s;" % p)
+        elif kind == "com":
+            out.append("<!--%s-->" % p)
+        elif kind == "pi":
+            out.append("<?%s?>" % p)
         else:
             out.append("<![CDATA[%s]]>" % p)
     return "".join(out)
@@ -449,6 +481,46 @@ ENCODINGS = [("UTF-8", 0x10ffff)] * 6 + [("UTF-16", 0x10ffff)] * 2 + [("ISO-8859
 
 CONFIGS = [(False, True), (True, True), (False, False), (True, False)]     # (prettyxml, prefixes)
 
+# one service, three operations over the same argument types: f document/literal (wrapped),
+# g rpc/literal, h rpc/encoded (mx.encoded: xsi:type on every value)
+OPS = ["f", "g", "h"]
+OP_STYLE = {"f": "document/literal", "g": "rpc/literal", "h": "rpc/encoded"}
+TNS = "my-namespace"
+WSDL = """<?xml version='1.0' encoding='UTF-8'?>
+<wsdl:definitions targetNamespace="%(tns)s" xmlns:tns="%(tns)s"
+ xmlns:soap="http://schemas.xmlsoap.org/wsdl/soap/" xmlns:wsdl="http://schemas.xmlsoap.org/wsdl/"
+ xmlns:xsd="http://www.w3.org/2001/XMLSchema">
+  <wsdl:types><xsd:schema targetNamespace="%(tns)s" elementFormDefault="qualified">%(schema)s</xsd:schema></wsdl:types>
+  <wsdl:message name="fIn"><wsdl:part name="parameters" element="tns:Wrapper"/></wsdl:message>
+  <wsdl:message name="fOut"><wsdl:part name="parameters" element="tns:Out"/></wsdl:message>
+  <wsdl:message name="gIn"><wsdl:part name="s" type="xsd:string"/><wsdl:part name="t" type="tns:T"/>
+    <wsdl:part name="c" type="tns:SC"/></wsdl:message>
+  <wsdl:message name="gOut"><wsdl:part name="r" type="xsd:string"/></wsdl:message>
+  <wsdl:portType name="PT">
+    <wsdl:operation name="f"><wsdl:input message="tns:fIn"/><wsdl:output message="tns:fOut"/></wsdl:operation>
+    <wsdl:operation name="g"><wsdl:input message="tns:gIn"/><wsdl:output message="tns:gOut"/></wsdl:operation>
+    <wsdl:operation name="h"><wsdl:input message="tns:gIn"/><wsdl:output message="tns:gOut"/></wsdl:operation>
+  </wsdl:portType>
+  <wsdl:binding name="B" type="tns:PT">
+    <soap:binding style="document" transport="http://schemas.xmlsoap.org/soap/http"/>
+    <wsdl:operation name="f"><soap:operation soapAction="f" style="document"/>
+      <wsdl:input><soap:body use="literal"/></wsdl:input><wsdl:output><soap:body use="literal"/></wsdl:output>
+    </wsdl:operation>
+    <wsdl:operation name="g"><soap:operation soapAction="g" style="rpc"/>
+      <wsdl:input><soap:body use="literal" namespace="%(tns)s"/></wsdl:input>
+      <wsdl:output><soap:body use="literal" namespace="%(tns)s"/></wsdl:output>
+    </wsdl:operation>
+    <wsdl:operation name="h"><soap:operation soapAction="h" style="rpc"/>
+      <wsdl:input><soap:body use="encoded" namespace="%(tns)s"
+        encodingStyle="http://schemas.xmlsoap.org/soap/encoding/"/></wsdl:input>
+      <wsdl:output><soap:body use="encoded" namespace="%(tns)s"
+        encodingStyle="http://schemas.xmlsoap.org/soap/encoding/"/></wsdl:output>
+    </wsdl:operation>
+  </wsdl:binding>
+  <wsdl:service name="S"><wsdl:port name="P" binding="tns:B">
+    <soap:address location="http://unused.invalid/svc"/></wsdl:port></wsdl:service>
+</wsdl:definitions>"""
+
 
 def guard(fn, *a, **kw):
     """('ok', value) | ('err', repr)"""
@@ -462,7 +534,7 @@ class Clients(object):
     def __init__(self):
         from . import sudsutil as U
         self.U = U
-        self.wsdl = U.doc_wsdl(SCHEMA, "Wrapper", "Out")
+        self.wsdl = (WSDL % dict(tns=TNS, schema=SCHEMA)).encode("utf-8")
         self.by_cfg = {}
         self.scopes = {}
 
@@ -472,8 +544,8 @@ class Clients(object):
             self.by_cfg[cfg] = self.U.client_from_wsdl(self.wsdl, nosend=True, prettyxml=pretty, prefixes=prefixes)
         return self.by_cfg[cfg]
 
-    def request(self, cfg, vs):
-        """vs = (s, t.s, t@a, c, c@a) -> envelope bytes"""
+    def request(self, cfg, vs, op="f"):
+        """vs = (s, t.s, t@a, c, c@a) -> envelope bytes of operation `op`"""
         cl = self.client(cfg)
         t = cl.factory.create("ns0:T")
         t.s = vs[1]
@@ -481,20 +553,27 @@ class Clients(object):
         c = cl.factory.create("ns0:SC")
         c.value = vs[3]
         c._a = vs[4]
-        return bytes(cl.service.f(s=vs[0], t=t, c=c).envelope)
+        return bytes(getattr(cl.service, op)(s=vs[0], t=t, c=c).envelope)
 
-    def reply(self, raws, q, encoding="UTF-8", indent=False):
+    def reply(self, raws, q, encoding="UTF-8", indent=False, misc=None, lang=None):
         """raws = raw content for (r, t.s, t@a, c, c@a) -> (reply bytes in `encoding`,
         the same document in UTF-8 for the independent indexer).  indent: the
-        writer pretty-prints (whitespace only inside elements that have children)."""
+        writer pretty-prints (whitespace only inside elements that have children).
+        misc: callable giving a comment / PI (or "") to drop between elements and
+        around the root; lang: value of an xml:lang attribute on <r>."""
+        m = misc or (lambda: "")
+
         def nl(k):
-            return "\n" + "  " * k if indent else ""
+            return m() + ("\n" + "  " * k if indent else "")
+        rattr = ' xml:lang=%s%s%s' % (q, lang, q) if lang else ""
         body = ('<e:Envelope xmlns:e="%s">%s<e:Body>%s<Out xmlns="my-namespace">'
-                '%s<r>%s</r>%s<t a=%s%s%s>%s<s>%s</s>%s</t>%s<c a=%s%s%s>%s</c>%s</Out>%s</e:Body>%s</e:Envelope>'
-                % (SOAPENV, nl(1), nl(2), nl(3), raws[0], nl(3), q, raws[2], q, nl(4), raws[1], nl(3), nl(3),
+                '%s<r%s>%s</r>%s<t a=%s%s%s>%s<s>%s</s>%s</t>%s<c a=%s%s%s>%s</c>%s</Out>%s</e:Body>%s</e:Envelope>'
+                % (SOAPENV, nl(1), nl(2), nl(3), rattr, raws[0], nl(3), q, raws[2], q, nl(4), raws[1], nl(3), nl(3),
                    q, raws[4], q, raws[3], nl(2), nl(1), nl(0)))
         decl = '<?xml version="1.0" encoding="%s"?>' + ("\n" if indent else "")
-        return (decl % encoding + body).encode(encoding), (decl % "UTF-8" + body).encode("utf-8")
+        pre, post = m(), m()
+        return ((decl % encoding + pre + body + post).encode(encoding),
+                (decl % "UTF-8" + pre + body + post).encode("utf-8"))
 
     def process_reply(self, data, via_inject):
         cl = self.client((False, True))
@@ -514,6 +593,7 @@ class Clients(object):
                 if o is None:
                     return None
             return None if o is None else str(o)
+        self.last_lang = getattr(getattr(out, "r", None), "lang", None)
         return (get(out, "r"), get(out, "t", "s"), get(out, "t", "_a"), get(out, "c", "value"), get(out, "c", "_a"))
 
 
@@ -838,8 +918,10 @@ def run(ck):
     # ------------------------------------------------------------------ esc (Text carrying the escaped flag)
     cases, meta = [], []
     epool = rng.sample(short, 250) + mid[:150] + longs[:100] + fixed
+    from suds.sax.text import Raw
     for n, s in enumerate(epool):
         flag = n % 3 != 0
+        israw = n % 7 == 3
         attr = n % 2 == 0
         pretty = n % 4 < 2
         # a Text flagged as escaped is written verbatim: only feed it content that is well-formed as it stands
@@ -847,10 +929,11 @@ def run(ck):
 
         def build():
             e = Element("a")
+            val = Raw(v) if israw else Text(v, escaped=flag)
             if attr:
-                e.set("b", Text(v, escaped=flag))
+                e.set("b", val)
             else:
-                e.setText(Text(v, escaped=flag))
+                e.setText(val)
             return (e.str() if pretty else e.plain())
         r = guard(build)
         raw = "\x00" + r[1]
@@ -862,10 +945,10 @@ def run(ck):
                 raw = out[3:-4]
             elif not attr and not v:
                 raw = "" if out == "<a></a>" else "\x00" + out
-        cases.append("(%s, %s, %s, %s)" % (cstr(v), cbool(flag), cbool(attr), cstr(raw)))
-        meta.append({"value": v, "escaped": flag, "attr": attr, "raw": raw})
-        ck.seen(("esc", v, flag, attr), nontrivial=flag)
-        ck.count("esc")
+        cases.append("(%s, %d%%N, %s, %s)" % (cstr(v), 2 if israw else int(flag), cbool(attr), cstr(raw)))
+        meta.append({"value": v, "escaped": flag, "Raw": israw, "attr": attr, "raw": raw})
+        ck.seen(("esc", v, flag, israw, attr), nontrivial=flag or israw)
+        ck.count("esc-raw" if israw else "esc")
     res = run_grouped(ck, "esc", "esc_case", cases, ["esc_agrees"])
     for i in res["esc_agrees"]:
         disagree("serialisation of Text(escaped=%s)" % meta[i]["escaped"], meta[i])
@@ -923,13 +1006,14 @@ def run(ck):
     cases, meta = [], []
     # scope of prefixes on the request tree before normalisation: read from the
     # prefixes=False envelope (refitPrefixes keeps every declaration) by expat
-    probe = guard(lambda: index_document(clients.request((False, False), ("x",) * 5)))
     scopes = {}
-    if probe[0] == "ok":
-        w = body_wrapper(probe[1])
-        for label, path, attr in REQ_POS:
-            node = w.path(*path) if w is not None else None
-            scopes[label] = scope_at(probe[1], node) if node is not None else []
+    for op in OPS:
+        probe = guard(lambda: index_document(clients.request((False, False), ("x",) * 5, op)))
+        if probe[0] == "ok":
+            w = body_wrapper(probe[1])
+            for label, path, attr in REQ_POS:
+                node = w.path(*path) if w is not None else None
+                scopes[op, label] = scope_at(probe[1], node) if node is not None else []
     # mostly medium-sized values (the long ones went through the standalone serialisers above)
     medium = [random_string(rng, 40) for _ in range(3000 if thorough else 500)]
     rpool = (fixed + rng.sample(short, 400) + mid[:500] + medium + longs[:2000 if thorough else 60]
@@ -938,14 +1022,16 @@ def run(ck):
     ncalls = 6000 if thorough else 700
     for n in range(ncalls):
         cfg = CONFIGS[n % 4]
+        op = OPS[(n // 4) % 3]
         vs = tuple(rng.choice(rpool) for _ in range(5))
-        if n < len(fixed):
-            vs = (fixed[n],) * 5
-        r = guard(clients.request, cfg, vs)
+        if n < 3 * len(fixed):
+            vs = (fixed[n // 3],) * 5
+            op = OPS[n % 3]
+        r = guard(clients.request, cfg, vs, op)
         ix = guard(index_document, r[1]) if r[0] == "ok" else ("err", r[1])
         w = body_wrapper(ix[1]) if ix[0] == "ok" else None
         if n == 3:
-            ck.sample({"group": "req", "config": "prettyxml=%s prefixes=%s" % cfg, "values": vs,
+            ck.sample({"group": "req", "operation": op, "config": "prettyxml=%s prefixes=%s" % cfg, "values": vs,
                        "envelope": r[1].decode("utf-8", "replace")[:900] if r[0] == "ok" else r[1]})
         for (label, path, attr), s in zip(REQ_POS, vs):
             node = w.path(*path) if w is not None else None
@@ -959,17 +1045,18 @@ def run(ck):
                     if cfg[1]:
                         here = scope_at(ix[1], node)
                         pi = [(u, p) for p, u in here if re.fullmatch(r"ns\d+", p)]
-                        pos = ("attr", scopes.get(label, []), pi)
+                        pos = ("attr", scopes.get((op, label), []), pi)
                 else:
                     raw = node.raw_text if node.raw_text is not None else "\x00children"
                     seen = node.text()
             cases.append((s, pos, raw, seen))
             meta.append({"value": s, "attr": bool(attr), "seen": seen, "raw": raw, "position": label,
-                         "prettyxml": cfg[0], "prefixes": cfg[1],
-                         "where": "as %s of operation f (prettyxml=%s, prefixes=%s); RequestContext.envelope"
-                                  % (label, cfg[0], cfg[1])})
-            ck.seen(("req", s, label, cfg), nontrivial=bool(s))
+                         "prettyxml": cfg[0], "prefixes": cfg[1], "operation": op,
+                         "where": "as %s of operation %s (%s; prettyxml=%s, prefixes=%s); RequestContext.envelope"
+                                  % (label, op, OP_STYLE[op], cfg[0], cfg[1])})
+            ck.seen(("req", s, label, cfg, op), nontrivial=bool(s))
             ck.count("req-" + label)
+            ck.count("req-op-" + op)
     eval_req("req", cases, meta)
 
     lap("req")
@@ -987,13 +1074,26 @@ def run(ck):
         indent = rng.random() < 0.4
         pcs = [write_pieces(rng, s, attr=(i in (2, 4)), q=q, maxlit=maxlit) for i, s in enumerate(vs)]
         raws = [render_pieces(p) for p in pcs]
-        sent, data = clients.reply(raws, q, encoding, indent)
+        noisy = rng.random() < 0.35
+
+        def misc():
+            if not noisy or rng.random() < 0.5:
+                return ""
+            return ("<!--%s-->" % comment_body(rng, maxlit) if rng.random() < 0.6 else "<?%s?>" % pi_body(rng, maxlit))
+        lang = rng.choice([None, None, "en", "de-AT"])
+        sent, data = clients.reply(raws, q, encoding, indent, misc, lang)
         via_inject = n % 3 == 0
         r = guard(clients.process_reply, sent, via_inject)
         ix = guard(index_document, data)
         if ix[0] != "ok":
             raise RuntimeError("the independent writer produced an ill-formed reply: %s\n%r" % (ix[1], data))
         out = body_wrapper(ix[1])
+        if r[0] == "ok" and r[1][0] is not None and clients.last_lang != lang:
+            ck.failing_input("C04:reply-xml-lang", "xml:lang=%r on a string element comes back as lang=%r"
+                             % (lang, clients.last_lang), {"kind": "rep", "value": vs[0], "position": "s",
+                                                           "reply": data.decode("utf-8"), "encoding": encoding})
+        if noisy:
+            ck.count("rep-with-comments-and-PIs-between-elements")
         if n == 5:
             ck.sample({"group": "rep", "strings": vs, "reply": data.decode("utf-8")[:900], "suds": repr(r[1])[:400]})
         for i, ((label, path, attr), s) in enumerate(zip(REQ_POS, vs)):
@@ -1010,7 +1110,7 @@ def run(ck):
             meta.append({"value": s, "attr": bool(attr), "raw": raws[i], "got": got, "position": label,
                          "reply": data.decode("utf-8"), "encoding": encoding,
                          "via": "__inject" if via_inject else "RequestContext.process_reply"})
-            ck.seen(("rep", raws[i], label), nontrivial=len(pcs[i]) > 1 or (pcs[i] and pcs[i][0][0] != "lit"))
+            ck.seen(("rep", raws[i], label), nontrivial=bool(len(pcs[i]) > 1 or (pcs[i] and pcs[i][0][0] != "lit")))
             ck.count("rep-" + ("attr" if attr else "text"))
             ck.count("rep-" + encoding + ("-indented" if indent else ""))
             for kind, _ in pcs[i]:
@@ -1171,7 +1271,7 @@ def replay(ck, payload):
             pos = payload["position"]
             vs = ["x"] * 5
             vs[[p[0] for p in REQ_POS].index(pos)] = v
-            data = cl.request((payload["prettyxml"], payload["prefixes"]), tuple(vs))
+            data = cl.request((payload["prettyxml"], payload["prefixes"]), tuple(vs), payload.get("operation", "f"))
             print("envelope now:", data.decode("utf-8"))
             w = body_wrapper(index_document(data))
             label, path, attr = [p for p in REQ_POS if p[0] == pos][0]
